@@ -648,6 +648,41 @@ def run_route(c):
         shutil.rmtree(wd, ignore_errors=True)
 
 
+def _summary(x):
+    return {"first": repr(x.flat[0]) if x.size else None, "last": repr(x.flat[-1]) if x.size else None,
+            "digest": digest(x), "shape": list(x.shape), "dtype": str(x.dtype),
+            "memmap": mr._get_backing_memmap(x) is not None}
+
+
+def run_loky_loop(c):
+    """SEVERAL calls on ONE managed Parallel object (its temporary folder outlives a call); every call gets a FRESH
+    large array of the same shape and dtype with other contents, the previous one having been dropped and collected"""
+    import gc
+    from joblib import Parallel, delayed
+    dt = mk_dtype(c["dtype"])
+    shape = tuple(c["shape"])
+    rows, addr_reused, seen = [], 0, set()
+    try:
+        with Parallel(n_jobs=2, max_nbytes=c["max_nbytes"], backend=c.get("backend", "loky"), timeout=120) as parallel:
+            for it in range(c["iterations"]):
+                if c["fill"] == "full":
+                    x = np.full(shape, it + 1).astype(dt)
+                else:
+                    x = (np.arange(int(np.prod(shape))).reshape(shape) * (it + 1) + it).astype(dt)
+                if c.get("order") == "F":
+                    x = np.asfortranarray(x)
+                addr_reused += id(x) in seen
+                seen.add(id(x))
+                want = {"digest": digest(x), "first": repr(x.flat[0]), "last": repr(x.flat[-1])}
+                got = parallel(delayed(_summary)(x) for _ in range(c.get("tasks", 2)))
+                rows.append({"it": it, "want": want, "got": got})
+                del x, got
+                gc.collect()
+    except Exception as e:  # noqa
+        return {"rows": rows, "parallel_raise": "%s: %s" % (type(e).__name__, str(e)[:160])}
+    return {"rows": rows, "addresses_reused": addr_reused}
+
+
 def main():
     try:
         for line in sys.stdin:
@@ -657,7 +692,7 @@ def main():
             c = json.loads(line)
             try:
                 r = {"array": run_array, "reduce": run_reduce, "loky": run_loky, "loadmatrix": run_loadmatrix,
-                     "route": run_route}[c["mode"]](c)
+                     "route": run_route, "loky_loop": run_loky_loop}[c["mode"]](c)
             except BaseException as e:  # harness-level failure is reported, not hidden
                 import traceback
                 r = {"harness_error": repr(e), "tb": traceback.format_exc()[-800:]}
